@@ -5,6 +5,7 @@ package sockq
 import (
 	"os"
 	"strconv"
+	"strings"
 	"syscall"
 	"unsafe"
 )
@@ -48,4 +49,45 @@ func Pending(port int) (int, bool) {
 		return 0, false
 	}
 	return int(n), true
+}
+
+// SetRcvBuf enlarges the kernel receive buffer of the socket bound to port (SO_RCVBUFFORCE when permitted, else SO_RCVBUF)
+// and returns the size now in force (0 when the socket was not found).
+func SetRcvBuf(port, bytes int) int {
+	fd := Find(port)
+	if fd < 0 {
+		return 0
+	}
+	const soRcvbufForce = 33
+	if err := syscall.SetsockoptInt(fd, syscall.SOL_SOCKET, soRcvbufForce, bytes); err != nil {
+		_ = syscall.SetsockoptInt(fd, syscall.SOL_SOCKET, syscall.SO_RCVBUF, bytes)
+	}
+	n, _ := syscall.GetsockoptInt(fd, syscall.SOL_SOCKET, syscall.SO_RCVBUF)
+	return n
+}
+
+// Drops returns the kernel's count of datagrams dropped at the socket bound to port (receive buffer full), read from
+// the socket's own line of /proc/net/udp (matched by inode); ok=false when it cannot be determined.
+func Drops(port int) (int, bool) {
+	fd := Find(port)
+	if fd < 0 {
+		return 0, false
+	}
+	var st syscall.Stat_t
+	if err := syscall.Fstat(fd, &st); err != nil {
+		return 0, false
+	}
+	b, err := os.ReadFile("/proc/net/udp")
+	if err != nil {
+		return 0, false
+	}
+	ino := strconv.FormatUint(st.Ino, 10)
+	for _, line := range strings.Split(string(b), "\n") {
+		f := strings.Fields(line)
+		if len(f) >= 13 && f[9] == ino {
+			d, err := strconv.Atoi(f[12])
+			return d, err == nil
+		}
+	}
+	return 0, false
 }
